@@ -39,15 +39,31 @@ package packaging
 //@   ensures chain_restored:     result1 == nil ==> (forall k string :: chainHas(importChain, k) == old(chainHas(importChain, k)))
 //@   ensures collected_only_grows: forall k string :: old(k in alreadyCollected) ==> k in alreadyCollected && alreadyCollected[k] == old(alreadyCollected[k])
 //@   ensures registered:         result1 == nil ==> nsOf(parentDir) in alreadyCollected && alreadyCollected[nsOf(parentDir)] == result0
+//@   ensures new_package_is_a_new_object: result1 == nil && !old(nsOf(parentDir) in alreadyCollected) ==> result0 != nil && fresh(result0)
 
 // Errors found while collecting imports or previous versions reach the caller.
 //@ func loadPackageVersion
 //@   property C18,C09
 //@   ensures errSeen(collectPackages) ==> result1 != nil
+//@   property C10
+//@   ensures loads_a_new_object: result1 == nil ==> result0 != nil && fresh(result0)
 //@ func LoadPackage
 //@   property C18,C09
 //@   invariant 0: !errSeen(loadPackageVersion) && !errSeen(collectVersions)
 //@   ensures errSeen(loadPackageVersion) || errSeen(collectVersions) ==> result1 != nil
+// The loaded manifest is handed to koanf's struct provider (updatePackageInfoFromArgs), which walks the object graph
+// field by field and does not terminate on a cycle: no previous version may be the package object itself.
+//@   property C10
+//@   invariant 0: forall k in 0..rangeindex+1 :: packageInfo.Versions[k].Package != packageInfo
+//@   ensures no_version_is_the_package_itself: result1 == nil ==> (forall k in 0..len(result0.Versions) :: result0.Versions[k].Package != result0)
+//@   ensures loaded_manifest_is_returned: result1 == nil ==> result0 != nil
+
+// ---- C10: the manifest reader is input-facing: no nil dereference for any manifest bytes ------------------------
+//@ sweep C10 file pkg/packaging/packageinfo.go
 //@ func collectVersions
 //@   property C18,C09
+//@   requires pkgInfo != nil
 //@   ensures errSeen(fetchAndCachePackages) ==> result1 != nil
+//@   property C10
+//@   invariant 0: len(versionUrls) == rangeindex + 1 && rangeindex + 1 <= len(pkgInfo.Versions)
+//@   ensures one_dir_per_version: result1 == nil ==> len(result0) == old(len(pkgInfo.Versions))
